@@ -36,7 +36,7 @@ def hist_operand():
 
 
 def history(cfg, min_steps=3, max_steps=12, op_names=None, extra_ops=None, huge=False):
-    one = gen.prog(cfg, depth=0, max_ops=2) if not huge else gen.weighted((60, gen.prog(cfg, depth=0, max_ops=2)), (1, gen.prog_huge(cfg)))
+    one = gen.prog(cfg, depth=0, max_ops=2) if not huge else gen.weighted((150, gen.prog(cfg, depth=0, max_ops=2)), (1, gen.prog_huge(cfg)))
     init = st.lists(one, min_size=2, max_size=3)
     base = gen.op(cfg, 0, names=op_names or HIST_OPS, opnd=hist_operand())
     ops = base if extra_ops is None else gen.weighted((4, base), (1, extra_ops))
